@@ -5,6 +5,7 @@ import ast
 from ..engine import rule
 from ..flow import PRUNE, Violation, explore, is_none_const, path_ends, \
     path_is, raising_node, store_value
+from ..locks import POOL_WRITE, held_locks, step_held
 from ..model import dotted
 from ..twopc import BLOBSTORAGE, DS, FS, MS, STORAGES, commit_lock_ops, \
     identity_guard
@@ -258,7 +259,7 @@ def r2(R):
             'tfile.rewind', 'owner.clear')
     seen_ops = set()
 
-    def events(node, lab):
+    def events(node, lab, held=frozenset()):
         ev = set()
         for op in F.ops(node):
             if op.kind == 'call':
@@ -266,7 +267,11 @@ def r2(R):
                         op.ast.args and F.canon(op.ast.args[0], node.frame) \
                         == ('self', '_pos'):
                     ev.add('truncate')
-                if path_is(op.path, ('self', '_files', 'flush')):
+                # the pool is emptied while its writer side is held, i.e.
+                # after every handed-out handle has come back (a handle
+                # that is out keeps its read-ahead buffer)
+                if path_is(op.path, ('self', '_files', 'empty')) and \
+                        POOL_WRITE in held_locks(held):
                     ev.add('poolflush')
                 if path_is(op.path, ('self', '_tindex', 'clear')):
                     ev.add('tindex.clear')
@@ -294,19 +299,20 @@ def r2(R):
         return ev
 
     def edge(node, st, lab, tgt):
-        matched, done = st
+        matched, done, held = st
         same = identity_guard(node, F)
         if same is not None and lab in ('T', 'F'):
-            return (lab == same, done)
-        ev = events(node, lab)
+            return (lab == same, done, held)
+        ev = events(node, lab, held)
+        held = step_held(F, node, held, lab)
         seen_ops.update(ev)
         if ev:
             done = frozenset(done | ev)
         # the truncate must come before the position it uses is reset
-        return (matched, done)
+        return (matched, done, held)
 
     def at(node, st):
-        matched, done = st
+        matched, done, held = st
         if node.id == g.exit_return and matched is True:
             missing = [n for n in NEED if n not in done]
             if missing:
@@ -315,7 +321,8 @@ def r2(R):
                                  ', '.join(missing))
         return st
 
-    vs, stats = explore(g, (None, frozenset()), at=at, edge=edge)
+    vs, stats = explore(g, (None, frozenset(), frozenset()), at=at,
+                        edge=edge)
     R.count(stats)
     R.require(set(NEED) <= seen_ops,
               'abort effects not found at all: %s' % (set(NEED) - seen_ops))
@@ -522,3 +529,58 @@ def r4(R):
                     'nor both tpc_abort and tpc_finish): data stored by a '
                     'transaction that failed with a conflict is committed by '
                     'the next, unrelated transaction')
+
+
+# ----------------------------------------------------------------- C05.R5
+@rule('C05.R5', 'the undo data manager registers everything its tpc_abort '
+      'needs before it calls the storage\'s tpc_begin (which may fail with '
+      'the commit lock already taken)', props=['C06'], min_instances=1)
+def r5(R):
+    cls = R.prog.cls('ZODB.DB.TransactionalUndo')
+    beg = R.method(cls, 'tpc_begin')
+    ab = R.method(cls, 'tpc_abort')
+    # what tpc_abort reads before it reaches the storage's tpc_abort
+    needs_data = any(isinstance(c, ast.Call) and isinstance(
+        c.func, ast.Attribute) and c.func.attr == 'data'
+        for c in ast.walk(ab.node))
+    g, b, F = R.cfg(beg, cls, max_depth=0)
+    R.instance('TransactionalUndo.tpc_begin', abort_reads_txn_data=needs_data)
+    seen = [0]
+
+    def edge(node, st, lab, tgt):
+        if lab in ('e', 'eb'):
+            return st
+        registered, storage = st
+        for op in F.ops(node):
+            if op.kind == 'call' and op.path and op.path[-1] == 'set_data':
+                registered = True
+            if op.kind == 'store' and path_is(op.path, ('self', '_storage')):
+                storage = True
+        return (registered, storage)
+
+    def at(node, st):
+        registered, storage = st
+        for op in F.ops(node):
+            if op.kind == 'call' and path_is(
+                    op.path, ('self', '_storage', 'tpc_begin')):
+                seen[0] += 1
+                if needs_data and not registered:
+                    return Violation(
+                        'the storage\'s tpc_begin is called before '
+                        'transaction.set_data(self, ...): if it fails after '
+                        'taking the commit lock (over-long metadata), '
+                        'tpc_abort dies on transaction.data(self), the '
+                        'storage\'s tpc_abort is never called and the commit '
+                        'lock stays held for ever')
+                if not storage:
+                    return Violation(
+                        'the storage\'s tpc_begin is called before '
+                        'self._storage is set')
+        return st
+
+    vs, stats = explore(g, (False, False), at=at, edge=edge)
+    R.count(stats)
+    R.require(seen[0] or vs, 'TransactionalUndo.tpc_begin no longer begins '
+              'a storage transaction')
+    for v in vs:
+        R.violation(v.node, v.message, g, v.path)
